@@ -52,7 +52,7 @@ def _text(idx):
 
 
 def _solve_one(job):
-    idx, _unused, want_model, timeout = job
+    idx, single_pass, want_model, timeout = job
     t0 = time.time()
     try:
         smt2 = _text(idx)
@@ -64,14 +64,14 @@ def _solve_one(job):
         s.set('random_seed', SEED % (2 ** 31))
         ground = [a for a in z3.parse_smt2_string(smt2, ctx=ctx) if not _quantified(a)]
         s.add(ground)
-        r = s.check()
+        r = z3.unknown if single_pass else s.check()
         if r == z3.unsat:
             return idx, 'unsat', time.time() - t0, None, ''
         # passes 1-3: default configuration with a short budget, then pure E-matching (no model-based quantifier
         # instantiation: the axioms carry explicit triggers, and many quantified hypotheses send MBQI astray), then the default
         # configuration with the full budget.  `unsat` is `unsat` under any option; `sat` is only taken from a default pass.
         r = z3.unknown
-        for mbqi, budget in ((True, min(timeout, 3000)), (False, timeout), (True, timeout)):
+        for mbqi, budget in (((True, timeout),) if single_pass else ((True, min(timeout, 3000)), (False, timeout), (True, timeout))):
             s = z3.Solver(ctx=ctx)
             s.set('timeout', budget)
             s.set('random_seed', SEED % (2 ** 31))
@@ -144,7 +144,7 @@ class Result:
         return self.z3 == 'sat' or self.cvc5 == 'sat'
 
 
-def discharge(items, jobs=None, both=False, z3_timeout=None, use_cvc5=True):
+def discharge(items, jobs=None, both=False, z3_timeout=None, use_cvc5=True, single_pass=False):
     """items: [(label, smt2)] -> [Result]; runs in a process pool."""
     jobs = jobs or min(16, os.cpu_count() or 4)
     z3_timeout = z3_timeout or Z3_TIMEOUT_MS
@@ -155,7 +155,7 @@ def discharge(items, jobs=None, both=False, z3_timeout=None, use_cvc5=True):
     _ITEMS = items                      # inherited by the forked workers; jobs carry indexes only
     with mp.get_context('fork').Pool(min(jobs, len(items))) as pool:
         for idx, verdict, t, model, reason in pool.imap_unordered(
-                _solve_one, [(i, None, True, z3_timeout) for i in range(len(items))], chunksize=max(1, len(items) // (jobs * 8))):
+                _solve_one, [(i, single_pass, True, z3_timeout) for i in range(len(items))], chunksize=max(1, len(items) // (jobs * 8))):
             r = results[idx]
             r.z3, r.time, r.model, r.reason = verdict, t, model, reason
         todo = [(i, None, CVC5_TIMEOUT_MS) for i, r in enumerate(results)
